@@ -36,7 +36,7 @@ def _intarr(rng, n, shape=None, neg=True):
 def gen_index(rng, shape):
     """Returns (index, class_name)."""
     r = len(shape)
-    kinds = ["int", "slice", "ellipsis", "newaxis", "intarr", "intarr_rep", "boolmask", "list", "mixed_adv_slice", "two_adv", "adv_bcast", "tuple_ints", "bool_lead", "empty_list", "neg_step", "scalar_arr", "adv_newaxis", "bool_and_slice", "ellipsis_mid", "bool_list", "bool_list_in_tuple", "npbool_list", "nested_bool_list", "one_true_list", "npint", "npint_tuple", "intlist_neg", "intarr_neg_only"]
+    kinds = ["int", "slice", "ellipsis", "newaxis", "intarr", "intarr_rep", "boolmask", "list", "mixed_adv_slice", "two_adv", "adv_bcast", "tuple_ints", "bool_lead", "empty_list", "neg_step", "scalar_arr", "adv_newaxis", "bool_and_slice", "ellipsis_mid", "bool_list", "bool_list_in_tuple", "npbool_list", "nested_bool_list", "one_true_list", "npint", "npint_tuple", "intlist_neg", "intarr_neg_only", "tuple_seq_rep", "tuple_seq_rep", "list_in_tuple_rep"]
     if r == 0:
         k = rng.choice(["ellipsis", "newaxis", "empty_tuple", "bool_scalar"])
         if k == "ellipsis":
@@ -88,6 +88,28 @@ def gen_index(rng, shape):
         return [int(t) for t in rng.integers(-n0, 0, size=3)] + [int(rng.integers(0, n0))], k
     if k == "intarr_neg_only":
         return rng.integers(-n0, 0, size=(int(rng.integers(1, 5)),)), k
+    if k in ("tuple_seq_rep", "list_in_tuple_rep"):
+        # an integer-array index SPELLED as a tuple (or list) nested inside the index tuple, with repeated
+        # positions; NumPy reads a sequence inside the index tuple as an array index whatever its type
+        mk = (lambda seq: tuple(int(t) for t in seq)) if k == "tuple_seq_rep" else (lambda seq: [int(t) for t in seq])
+        a = _intarr(rng, n0, (4,))
+        a[2] = a[0]
+        v = int(rng.integers(0, 5))
+        if v == 0 or r == 1:
+            return (mk(a),), k
+        if v == 1:
+            b = _intarr(rng, shape[1], (4,))
+            b[2] = b[0]
+            return (mk(a), mk(b)), k
+        if v == 2:
+            b = _intarr(rng, shape[1], (3,))
+            b[1] = b[0]
+            return (slice(None), mk(b)), k
+        if v == 3:
+            b = _intarr(rng, shape[-1], (2,))
+            b[1] = b[0]
+            return (Ellipsis, mk(b), None), k
+        return (mk(a), _slice(rng, shape[1])), k
     if k == "npbool_list":
         m = list(rng.uniform(size=(n0,)) > 0.4)  # elements are numpy.bool_
         if not any(m):
